@@ -20,6 +20,7 @@ func init() {
 		{Name: "setqos-keeps-old-bits", Rule: "R12.1", Where: "(*Publish).SetQoS", Edits: []Edit{{"publish.go", "\tp.fixed &= bits(^(QoS3)) // reset\n", ""}}},
 		{Name: "willqos-shift-4", Rule: "R12.3", Where: "(*Connect).SetWill", Edits: []Edit{{"connect.go", "\tp.flags.toggle(v<<3, v < 3)", "\tp.flags.toggle(v<<4, v < 3)"}}},
 		{Name: "will-retain-not-mirrored", Rule: "R12.3", Where: "(*Connect).SetWill", Edits: []Edit{{"connect.go", "\tp.flags.toggle(WillRetain, will.Retain())\n", ""}}},
+		{Name: "empty-username-clears-password-flag", Rule: "R12.2", Where: "(*Connect).SetUsername", Edits: []Edit{{"connect.go", "\tif len(v) == 0 {\n\t\tp.username = nil\n\t}", "\tif len(v) == 0 {\n\t\tp.username = nil\n\t\tp.flags.toggle(PasswordFlag, false)\n\t}"}}},
 		{Name: "setpassword-clears-username-flag", Rule: "R12.2", Where: "(*Connect).SetPassword", Edits: []Edit{{"connect.go", "\tp.flags.toggle(PasswordFlag, len(p.password) > 0)", "\tp.flags = 0\n\tp.flags.toggle(PasswordFlag, len(p.password) > 0)"}}},
 		{Name: "toggle-as-if-else", Silent: true, Edits: []Edit{{"wiretypes.go", "\tif on {\n\t\t*v = *v | bits(flag)\n\t\treturn\n\t}\n\t*v = *v & bits(^flag)", "\tif on {\n\t\t*v |= bits(flag)\n\t} else {\n\t\t*v &^= bits(flag)\n\t}"}}},
 	}})
@@ -125,6 +126,15 @@ func constByName0(p *Prog, name string) (int64, bool) {
 	}
 	v, ok := constantInt(cn)
 	return v, ok
+}
+
+// connectFlagsOwnedBy: the CONNECT flag bits (by exported constant name) a setter derives from the value it
+// stores (§3.1.2.3); every other bit of the flags byte must survive the setter unchanged.
+var connectFlagsOwnedBy = map[string][]string{
+	"SetUsername":   {"UsernameFlag"},
+	"SetPassword":   {"PasswordFlag"},
+	"SetWill":       {"WillFlag", "WillRetain", "WillQoS1", "WillQoS2"},
+	"SetCleanStart": {"CleanStart"},
 }
 
 func checkC12(p *Prog, c *Check) {
@@ -370,6 +380,29 @@ func checkC12(p *Prog, c *Check) {
 								}
 								if !sameValue(got, b0) && frameBad == "" {
 									frameBad = fmt.Sprintf("%s(%v) on a state with %v (background %d) changes %s() from %v to %v", st.name, a, state, pattern, g.name, b0, got)
+								}
+							}
+							// R12.2, flag bits: what is visible only through HasFlag(mask) is part of the frame too — every
+							// single bit keeps its value unless it is one this setter derives (R12.3) or sets itself
+							if tn == "Connect" {
+								if hasFlag := p.Method("Connect", "HasFlag"); hasFlag != nil {
+									owned := int64(0)
+									for _, n := range connectFlagsOwnedBy[st.name] {
+										if k, ok := constByName(p, n); ok {
+											owned |= k
+										}
+									}
+									for bit := int64(1); bit < 256 && frameBad == ""; bit <<= 1 {
+										if owned&bit != 0 {
+											continue
+										}
+										c0 := p.newSym(stateInput(ws, pattern))
+										r0, ok0 := c0.evalPure(hasFlag, []sv{{k: 'p', addr: "P0"}, {k: 'i', i: bit}}, nil, 0)
+										r1, ok1 := evalG(accessor{"HasFlag", hasFlag}, sv{k: 'i', i: bit})
+										if ok0 && ok1 && len(r0) == 1 && r0[0].b != r1.b {
+											frameBad = fmt.Sprintf("%s(%v) on a state with %v (background %d) changes HasFlag(%#02x) from %v to %v", st.name, a, state, pattern, bit, r0[0].b, r1.b)
+										}
+									}
 								}
 							}
 							// R12.3
